@@ -1094,7 +1094,6 @@ func calleeClosure(fn *ssa.Function, maxDepth int) map[*ssa.Function][]string {
 	return out
 }
 
-
 // cancelCallers maps a context field (type.field) to the module functions that invoke the cancel function
 // created together with it by context.WithCancel.
 func cancelCallers(p *core.Program) map[string][]*ssa.Function {
@@ -1243,8 +1242,8 @@ func ruleCalleeWake(r *core.Reporter) {
 	}
 	// operations whose non-blocking nature is decided by another property's rules
 	elsewhere := map[string]string{
-		"recv " + pkgReactor + ".reactor.tokenPool": "a token is taken back only after LoadAndDelete reported the entry, whose creation put a token in (C12 R-REACT-INSERT/R-REACT-RELEASE)",
-		"send " + pkgReactor + ".reactor.input":     "input has the token pool's capacity and the send follows a token acquisition (C12 R-REACT-CAP/R-REACT-ACCEPT)",
+		"recv " + pkgReactor + ".reactor.tokenPool":   "a token is taken back only after LoadAndDelete reported the entry, whose creation put a token in (C12 R-REACT-INSERT/R-REACT-RELEASE)",
+		"send " + pkgReactor + ".reactor.input":       "input has the token pool's capacity and the send follows a token acquisition (C12 R-REACT-CAP/R-REACT-ACCEPT)",
 		"recv " + pkgPause + ".ControlChans.ResumeCh": "Resume's reads are answered by every subscriber's offer or by Unsubscribe closing the channel (C14 R-PAUSE-WORKER/R-UNSUB-SAFE)",
 	}
 	gs := waitedGoroutines(p)
